@@ -102,6 +102,13 @@ class LoopChecker:
         if rd is None:
             rd = self._rd = ReachingDefs(self.func, self.cfg)  # type: ignore[attr-defined]
         guards = list(self._guards(at))
+        try:
+            cprov = ctext  # the count written in terms of the inputs (what the expanded guards mention)
+            for where in (at, count, getattr(at, "iter", None), getattr(at, "test", None)):
+                if where is not None and cprov == ctext:
+                    cprov = unparse(prov_ast(rd, count, where))
+        except Exception:
+            cprov = ctext
         # a bound held in a local (`limit = len(v) // 8; if n > limit: raise`) counts as the bound it was computed from
         expanded = []
         for cond, pol in guards:
@@ -122,13 +129,59 @@ class LoopChecker:
             def sized(e: ast.expr) -> bool:
                 return any(isinstance(x, ast.Call) and unparse(x.func) == "len" for x in ast.walk(e))
 
+            def konst(e: ast.expr) -> t.Optional[int]:
+                if any(isinstance(x, (ast.Name, ast.Call, ast.Attribute)) for x in ast.walk(e)):
+                    return None
+                def fold_(x: ast.expr) -> t.Optional[int]:
+                    if isinstance(x, ast.Constant):
+                        return x.value if isinstance(x.value, int) and not isinstance(x.value, bool) else None
+                    if isinstance(x, ast.UnaryOp) and isinstance(x.op, ast.USub):
+                        y = fold_(x.operand)
+                        return -y if y is not None else None
+                    if isinstance(x, ast.BinOp):
+                        l_, r_ = fold_(x.left), fold_(x.right)
+                        if l_ is None or r_ is None:
+                            return None
+                        if isinstance(x.op, ast.Add):
+                            return l_ + r_
+                        if isinstance(x.op, ast.Sub):
+                            return l_ - r_
+                        if isinstance(x.op, ast.Mult):
+                            return l_ * r_
+                        if isinstance(x.op, ast.LShift) and 0 <= r_ < 64:
+                            return l_ << r_
+                    return None
+
+                v_ = fold_(e)
+                return v_ if isinstance(v_, int) and not isinstance(v_, bool) else None
+
+            def over(e: ast.expr) -> bool:
+                """e >= count whenever count >= 0 (a negative count means no iteration at all): count itself,
+                k * e' / e' << k / e' + k with a constant k (>= 1, >= 0, >= 0) and e' such an expression."""
+                if unparse(e) in (ctext, cprov):
+                    return True
+                if isinstance(e, ast.BinOp) and isinstance(e.op, ast.Mult):
+                    for x, y in ((e.left, e.right), (e.right, e.left)):
+                        k = konst(y)
+                        if k is not None and k >= 1 and over(x):
+                            return True
+                if isinstance(e, ast.BinOp) and isinstance(e.op, ast.LShift):
+                    k = konst(e.right)
+                    return k is not None and k >= 0 and over(e.left)
+                if isinstance(e, ast.BinOp) and isinstance(e.op, ast.Add):
+                    for x, y in ((e.left, e.right), (e.right, e.left)):
+                        k = konst(y)
+                        if k is not None and k >= 0 and over(x):
+                            return True
+                return False
+
             # holds: count <= sized  (directly, or as the negation of count > sized)
             le = (isinstance(op, (ast.LtE, ast.Lt)) and pol) or (isinstance(op, (ast.Gt, ast.GtE)) and not pol)
             ge = (isinstance(op, (ast.GtE, ast.Gt)) and pol) or (isinstance(op, (ast.Lt, ast.LtE)) and not pol)
-            if ta == ctext and sized(b) and le and not self._scaled_up(b):
-                return f"{ctext} is bounded by {tb} on every path here"
-            if tb == ctext and sized(a) and ge and not self._scaled_up(a):
-                return f"{ctext} is bounded by {ta} on every path here"
+            if over(a) and sized(b) and le and not self._scaled_up(b):
+                return f"{ctext} is bounded by {tb} on every path here" + ("" if ta == ctext else f" (through {ta})")
+            if over(b) and sized(a) and ge and not self._scaled_up(a):
+                return f"{ctext} is bounded by {ta} on every path here" + ("" if tb == ctext else f" (through {tb})")
         return None
 
     def _scaled_up(self, e: ast.expr) -> bool:
